@@ -344,11 +344,76 @@ fn pat_variant(p: &Pat) -> Option<String> {
     }
 }
 
-fn body_kind(tokens: &str, patterns: &[(&str, &str)]) -> Option<String> {
-    for (needle, kind) in patterns {
-        if tokens.contains(needle) { return Some(kind.to_string()); }
+/// Token-level matching that does not depend on what locals, parameters or private constants are called: both the
+/// text and the pattern are split into tokens (punctuation separated); in the pattern `$` stands for any one
+/// identifier / literal token. Returns the token index just after the first match at or after `from`.
+fn toks(text: &str) -> Vec<String> {
+    let mut out = vec![];
+    let mut cur = String::new();
+    for ch in text.chars() {
+        if ch.is_alphanumeric() || ch == '_' { cur.push(ch); }
+        else {
+            if !cur.is_empty() { out.push(std::mem::take(&mut cur)); }
+            if !ch.is_whitespace() { out.push(ch.to_string()); }
+        }
+    }
+    if !cur.is_empty() { out.push(cur); }
+    out
+}
+
+fn tfind(text: &[String], pat: &str, from: usize) -> Option<usize> {
+    let p = toks(pat);
+    if p.is_empty() || text.len() < p.len() { return None; }
+    'outer: for i in from..=text.len() - p.len() {
+        for (k, pt) in p.iter().enumerate() {
+            let t = &text[i + k];
+            let ok = if pt == "$" { t.chars().all(|c| c.is_alphanumeric() || c == '_') } else { pt == t };
+            if !ok { continue 'outer; }
+        }
+        return Some(i + p.len());
     }
     None
+}
+
+fn thas(text: &str, pat: &str) -> bool { tfind(&toks(text), pat, 0).is_some() }
+
+/// all of `pats` occur, in this order
+fn tseq(text: &str, pats: &[&str]) -> bool {
+    let t = toks(text);
+    let mut at = 0;
+    for p in pats { match tfind(&t, p, at) { Some(i) => at = i, None => return false } }
+    true
+}
+
+/// the text followed by the bodies of the same-file functions it calls (two levels): a step that was moved into a
+/// private helper is still seen
+fn with_callees(text: &str, fns: &BTreeMap<String, syn::Block>) -> String {
+    let mut out = text.to_string();
+    let mut seen: Vec<String> = vec![];
+    for _ in 0..2 {
+        let t = toks(&out);
+        let mut add = String::new();
+        for (i, w) in t.iter().enumerate() {
+            if let Some(b) = fns.get(w) {
+                let called = t.get(i + 1).map(|n| n == "(" || n == ":").unwrap_or(false) || (i > 0 && (t[i - 1] == "(" || t[i - 1] == ","));
+                if called && !seen.contains(w) { seen.push(w.clone()); add.push(' '); add.push_str(&quote::quote!(#b).to_string()); }
+            }
+        }
+        if add.is_empty() { break; }
+        out.push_str(&add);
+    }
+    out
+}
+
+fn body_kind(tokens: &str, patterns: &[(&str, &str)]) -> Option<String> {
+    let mut hit: Option<String> = None;
+    for (needle, kind) in patterns {
+        if thas(tokens, needle) {
+            if let Some(h) = &hit { if h != kind { return None; } }
+            hit = Some(kind.to_string());
+        }
+    }
+    hit
 }
 
 fn gen_frame(repo: &Path, g: &mut Gen) -> R<()> {
@@ -358,15 +423,35 @@ fn gen_frame(repo: &Path, g: &mut Gen) -> R<()> {
     let frame = Src::load(repo, frame_rel)?;
     let topic = Src::load(repo, "protocol/src/topic_name.rs")?;
     let oper = Src::load(repo, "protocol/src/operation.rs")?;
-    let max = codec.const_int("MAX_MESSAGE_SIZE")?;
-    let lenm = codec.const_int("LEN_MARKER_SIZE")?;
-    let typm = codec.const_int("TYPE_MARKER_SIZE")?;
-    let resv = codec.const_int("RESERVED_SIZE")?;
+    // the constants of the codec by what they are, whatever they are called: the frame limit is the constant the
+    // payload length is compared with, the two marker sizes are `size_of::<u64>()` and `size_of::<u8>()`, the
+    // reserved size is the constant `decode` compares the buffer length with first
+    let ccs = codec.consts();
+    let cfns = all_fns(&codec.ast);
+    let cval = |name: &str| -> R<u128> { let e = ccs.get(name).ok_or_else(|| Shape(format!("{codec_rel}: const {name} not found")))?; eval_int(e, &ccs).map_err(|w| Shape(format!("{codec_rel}: const {name}: {w}"))) };
+    let by_expr = |want: &str| -> Option<String> { ccs.iter().find(|(_, e)| { let t = quote::quote!(#e).to_string(); toks(&t) == toks(want) }).map(|(n, _)| n.clone()) };
+    let all_bodies: String = cfns.values().map(|b| quote::quote!(#b).to_string()).collect::<Vec<_>>().join(" ");
+    let max_name = if ccs.contains_key("MAX_MESSAGE_SIZE") { "MAX_MESSAGE_SIZE".to_string() } else {
+        let t = toks(&all_bodies);
+        let mut found = None;
+        for i in 0..t.len().saturating_sub(2) { if t[i + 1] == ">" && ccs.contains_key(&t[i + 2]) { found = Some(t[i + 2].clone()); break; } }
+        found.ok_or_else(|| Shape(format!("{codec_rel}: no constant that a payload length is compared with (`length > LIMIT`)")))?
+    };
+    let max = cval(&max_name)?;
+    let lenm = match by_expr("size_of :: < u64 > ()") { Some(n) => cval(&n)?, None => cval("LEN_MARKER_SIZE")? };
+    let typm = match by_expr("size_of :: < u8 > ()") { Some(n) => cval(&n)?, None => cval("TYPE_MARKER_SIZE")? };
+    let resv = if ccs.contains_key("RESERVED_SIZE") { cval("RESERVED_SIZE")? } else {
+        let t = toks(&all_bodies);
+        let mut found = None;
+        for i in 0..t.len().saturating_sub(6) { if t[i] == "len" && t[i + 1] == "(" && t[i + 2] == ")" && t[i + 3] == "<" && ccs.contains_key(&t[i + 4]) { found = Some(t[i + 4].clone()); break; } }
+        cval(&found.ok_or_else(|| Shape(format!("{codec_rel}: no constant the buffer length is compared with (`src.len() < RESERVED`)")))?)?
+    };
 
     let mut env = TypeEnv::new();
     env.absorb(&frame)?; env.absorb(&topic)?; env.absorb(&oper)?;
     let variants = match env.enums.get("Frame") { Some(v) => v.clone(), None => return shape(frame_rel, "enum Frame not found") };
     let consts = frame.consts();
+    let ffns = all_fns(&frame.ast);
 
     // get_type: variant -> tag
     let mut tag_of: BTreeMap<String, u128> = BTreeMap::new();
@@ -385,8 +470,8 @@ fn gen_frame(repo: &Path, g: &mut Gen) -> R<()> {
         let v = pat_variant(&arm.pat).ok_or_else(|| Shape(format!("{frame_rel}: get_length arm pattern not understood")))?;
         let b = &arm.body;
         let toks = quote::quote!(#b).to_string();
-        let k = if toks.trim() == "0" { Some("empty".to_string()) } else {
-            body_kind(&toks, &[("bincode :: serialized_size (payload)", "bincode"), ("bytes . len () as u64", "raw")]) };
+        let k = if toks.trim() == "0" || toks.trim() == "Ok (0)" { Some("empty".to_string()) } else {
+            body_kind(&with_callees(&toks, &ffns), &[("bincode :: serialized_size (", "bincode"), ("$ . len ()", "raw")]) };
         match k { Some(k) => { len_body.insert(v, k); } None => return shape(frame_rel, format!("get_length arm {v} not understood: {toks}")) }
     }
     // write_to_bytes
@@ -398,7 +483,7 @@ fn gen_frame(repo: &Path, g: &mut Gen) -> R<()> {
         let b = &arm.body;
         let toks = quote::quote!(#b).to_string();
         let k = if toks.trim() == "()" { Some("empty".to_string()) } else {
-            body_kind(&toks, &[("bincode :: serialize_into (dst . writer () , & payload)", "bincode"), ("dst . extend_from_slice (& bytes)", "raw")]) };
+            body_kind(&with_callees(&toks, &ffns), &[("bincode :: serialize_into (", "bincode"), ("$ . extend_from_slice (", "raw")]) };
         match k { Some(k) => { write_body.insert(v, k); } None => return shape(frame_rel, format!("write_to_bytes arm {v} not understood: {toks}")) }
     }
     // try_from: tag -> (variant, body kind), in source order
@@ -422,7 +507,7 @@ fn gen_frame(repo: &Path, g: &mut Gen) -> R<()> {
         let var = variants.iter().map(|(v, _)| v.clone()).find(|v| toks.contains(&format!("Frame :: {v} (")) || toks.trim() == format!("Frame :: {v}"));
         let var = match var { Some(v) => v, None => return shape(frame_rel, format!("try_from arm {name}: constructed variant not understood: {toks}")) };
         let k = if toks.trim() == format!("Frame :: {var}") { Some("empty".to_string()) } else {
-            body_kind(&toks, &[("bincode :: deserialize (& bytes)", "bincode"), ("(bytes . into ())", "raw")]) };
+            body_kind(&with_callees(&toks, &ffns), &[("bincode :: deserialize (", "bincode"), ("( $ . into () )", "raw"), ("( $ . freeze () )", "raw")]) };
         match k { Some(k) => read.push((tag, var, k)), None => return shape(frame_rel, format!("try_from arm {name} not understood: {toks}")) }
     }
     if !saw_default { return shape(frame_rel, "try_from has no catch-all arm"); }
@@ -543,9 +628,9 @@ fn gen_topic(repo: &Path, g: &mut Gen) -> R<()> {
     let cc = comp_of(&cparts[1], rel)?;
     // how try_from slices before the reserved-prefix test, and Display
     let tf = find_method(&src.ast, "TopicName", "try_from", Some("TryFrom")).ok_or_else(|| Shape(format!("{rel}: TryFrom<&str> for TopicName not found")))?;
-    let body = { let b = &tf.block; quote::quote!(#b).to_string() };
-    let slicing = if body.contains("value [1 ..] . starts_with (RESERVED_NAMESPACE)") { "index" }
-        else if body.contains("value . get (1 ..)") && body.contains("starts_with (RESERVED_NAMESPACE)") { "get" }
+    let body = { let b = &tf.block; with_callees(&quote::quote!(#b).to_string(), &all_fns(&src.ast)) };
+    let slicing = if thas(&body, "$ [1 ..] . starts_with (RESERVED_NAMESPACE)") { "index" }
+        else if thas(&body, "$ . get (1 ..)") && thas(&body, "starts_with (RESERVED_NAMESPACE)") { "get" }
         else { return shape(rel, "try_from: the reserved-namespace test is not one of the understood forms") };
     let disp = find_method(&src.ast, "TopicName", "fmt", Some("Display")).ok_or_else(|| Shape(format!("{rel}: Display for TopicName not found")))?;
     let dbody = { let b = &disp.block; quote::quote!(#b).to_string() };
@@ -566,53 +651,90 @@ fn gen_topic(repo: &Path, g: &mut Gen) -> R<()> {
 
 // ------------------------------------------------------------------------------------------ server
 
-/// does `block` (lexically) contain an awaited `.send(..)` call?
-fn has_awaited_send(stmts: &[syn::Stmt]) -> bool {
-    struct V(bool);
-    impl<'ast> syn::visit::Visit<'ast> for V {
+/// all free functions and methods of a file, by name
+fn all_fns(ast: &syn::File) -> BTreeMap<String, syn::Block> {
+    let mut m = BTreeMap::new();
+    fn walk(items: &[Item], m: &mut BTreeMap<String, syn::Block>) {
+        for it in items {
+            match it {
+                Item::Fn(f) => { m.insert(f.sig.ident.to_string(), (*f.block).clone()); }
+                Item::Impl(im) => for ii in &im.items { if let ImplItem::Fn(f) = ii { m.insert(f.sig.ident.to_string(), f.block.clone()); } },
+                Item::Mod(md) => if let Some((_, items)) = &md.content { walk(items, m); },
+                _ => {}
+            }
+        }
+    }
+    walk(&ast.items, &mut m);
+    m
+}
+
+/// do these statements (lexically, or through a call to a function of the same file, up to `depth` levels) contain
+/// an awaited `.send(..)` call?
+fn has_awaited_send(stmts: &[syn::Stmt], fns: &BTreeMap<String, syn::Block>, depth: usize) -> bool {
+    struct V<'a> { found: bool, fns: &'a BTreeMap<String, syn::Block>, depth: usize }
+    impl<'ast, 'a> syn::visit::Visit<'ast> for V<'a> {
         fn visit_expr_await(&mut self, a: &'ast syn::ExprAwait) {
-            if let Expr::MethodCall(m) = &*a.base {
-                if m.method == "send" { self.0 = true; }
+            match &*a.base {
+                Expr::MethodCall(m) => {
+                    if m.method == "send" { self.found = true; }
+                    else if self.depth > 0 { if let Some(b) = self.fns.get(&m.method.to_string()) { if has_awaited_send(&b.stmts, self.fns, self.depth - 1) { self.found = true; } } }
+                }
+                Expr::Call(c) => {
+                    if let Expr::Path(p) = &*c.func {
+                        if let Some(seg) = p.path.segments.last() {
+                            if self.depth > 0 { if let Some(b) = self.fns.get(&seg.ident.to_string()) { if has_awaited_send(&b.stmts, self.fns, self.depth - 1) { self.found = true; } } }
+                        }
+                    }
+                }
+                _ => {}
             }
             syn::visit::visit_expr_await(self, a);
         }
     }
-    let mut v = V(false);
+    let mut v = V { found: false, fns, depth };
     for s in stmts { syn::visit::Visit::visit_stmt(&mut v, s); }
-    v.0
+    v.found
 }
 
-/// find the block in which the guard of `topics.lock()` is bound, and the statements after the binding
-fn lock_scope(block: &syn::Block) -> Option<Vec<syn::Stmt>> {
-    for (i, st) in block.stmts.iter().enumerate() {
-        if let syn::Stmt::Local(l) = st {
-            if let Some(init) = &l.init {
-                let e = &init.expr;
-                let toks = quote::quote!(#e).to_string();
-                if toks.starts_with("topics . lock ()") { return Some(block.stmts[i + 1..].to_vec()); }
-            }
-        }
-    }
-    // recurse into nested blocks
-    struct F(Option<Vec<syn::Stmt>>);
+/// every place where the guard of the global topics lock is bound by a `let` (`… .lock().await` / `.write().await` /
+/// `.read().await` on something named `topics`): the statements that follow it in its block, i.e. the guard's scope
+fn lock_scopes(block: &syn::Block) -> Vec<Vec<syn::Stmt>> {
+    struct F(Vec<Vec<syn::Stmt>>);
     impl<'ast> syn::visit::Visit<'ast> for F {
         fn visit_block(&mut self, b: &'ast syn::Block) {
-            if self.0.is_none() {
-                for (i, st) in b.stmts.iter().enumerate() {
-                    if let syn::Stmt::Local(l) = st {
-                        if let Some(init) = &l.init {
-                            let e = &init.expr;
-                            if quote::quote!(#e).to_string().starts_with("topics . lock ()") { self.0 = Some(b.stmts[i + 1..].to_vec()); return; }
-                        }
+            for (i, st) in b.stmts.iter().enumerate() {
+                if let syn::Stmt::Local(l) = st {
+                    if let Some(init) = &l.init {
+                        let e = &init.expr;
+                        let t = quote::quote!(#e).to_string();
+                        let takes = ["lock ()", "write ()", "read ()"].iter().any(|k| t.starts_with(&format!("topics . {k}")) || t.starts_with(&format!("self . topics . {k}")));
+                        if takes && t.trim_end().ends_with(". await") { self.0.push(b.stmts[i + 1..].to_vec()); }
                     }
                 }
-                syn::visit::visit_block(self, b);
             }
+            syn::visit::visit_block(self, b);
         }
     }
-    let mut f = F(None);
-    for st in &block.stmts { syn::visit::Visit::visit_stmt(&mut f, st); }
+    let mut f = F(vec![]);
+    syn::visit::Visit::visit_block(&mut f, block);
     f.0
+}
+
+/// the capacity handed to `mpsc::channel(…)` in a router's `pair()`: a literal or a constant of the file
+fn channel_capacity(src: &Src) -> R<u128> {
+    let fns = all_fns(&src.ast);
+    let cs = src.consts();
+    for (_, b) in fns.iter() {
+        let t = quote::quote!(#b).to_string();
+        if let Some(at) = t.find("mpsc :: channel (") {
+            let rest = &t[at + "mpsc :: channel (".len()..];
+            let arg = rest.split(')').next().unwrap_or("").trim().to_string();
+            if let Ok(v) = arg.replace('_', "").parse::<u128>() { return Ok(v); }
+            if let Some(e) = cs.get(&arg) { return eval_int(e, &cs).map_err(|w| Shape(format!("{}: channel capacity {arg}: {w}", src.rel))); }
+            return shape(&src.rel, format!("the capacity of the registration channel (`{arg}`) is neither a literal nor a constant of the file"));
+        }
+    }
+    shape(&src.rel, "no `mpsc::channel(…)` call found")
 }
 
 fn gen_server(repo: &Path, g: &mut Gen) -> R<()> {
@@ -624,13 +746,17 @@ fn gen_server(repo: &Path, g: &mut Gen) -> R<()> {
     let rr = Src::load(repo, rr_rel)?;
     let sv = Src::load(repo, sv_rel)?;
     let codes = Src::load(repo, codes_rel)?;
-    let ps_size = ps.const_int("SOCK_CHANNEL_SIZE")?;
-    let rr_size = rr.const_int("SOCK_CHANNEL_SIZE")?;
-    // handle_stream: is an awaited send() inside the scope of the `topics.lock()` guard?
-    let hs = sv.ast.items.iter().find_map(|it| if let Item::Fn(f) = it { if f.sig.ident == "handle_stream" { Some(f) } else { None } } else { None })
-        .ok_or_else(|| Shape(format!("{sv_rel}: fn handle_stream not found")))?;
-    let scope = lock_scope(&hs.block).ok_or_else(|| Shape(format!("{sv_rel}: handle_stream no longer binds a `topics.lock()` guard in a let statement")))?;
-    let held = has_awaited_send(&scope);
+    let ps_size = channel_capacity(&ps)?;
+    let rr_size = channel_capacity(&rr)?;
+    // registration: is an awaited send() (directly or through a function of the file) inside the scope of a guard of the
+    // global topics lock, in `handle_stream` or any function it was split into? (the shutdown path, which takes the lock
+    // to close the channels, is not part of registration)
+    let fns = all_fns(&sv.ast);
+    let hs = fns.get("handle_stream").ok_or_else(|| Shape(format!("{sv_rel}: fn handle_stream not found")))?;
+    let mut scopes: Vec<Vec<syn::Stmt>> = vec![];
+    for (name, b) in fns.iter() { if name != "shutdown" && name != "listen" { scopes.extend(lock_scopes(b)); } }
+    if scopes.is_empty() { return shape(sv_rel, "no function of the file binds a guard of the `topics` lock in a let statement"); }
+    let held = scopes.iter().any(|sc| has_awaited_send(sc, &fns, 3));
     let mut s = String::new();
     let _ = writeln!(s, "/-- `SOCK_CHANNEL_SIZE` of the pub/sub and request/reply routers -/\ndef pubsubChannelSize : Nat := {ps_size}\ndef reqrepChannelSize : Nat := {rr_size}");
     let _ = writeln!(s, "/-- does `handle_stream` await a channel `send` while the guard of the global `topics` lock is in scope? -/\ndef lockHeldAcrossSend : Bool := {}", held);
@@ -642,7 +768,9 @@ fn gen_server(repo: &Path, g: &mut Gen) -> R<()> {
     // optional (added by a fix): the code for a registration of the wrong messaging pattern
     let mismatch = codes.const_int("TOPIC_PATTERN_MISMATCH").ok();
     let _ = writeln!(s, "/-- `TOPIC_PATTERN_MISMATCH`, if the source defines it -/\ndef topicPatternMismatch : Option Nat := {}", match mismatch { Some(v) => format!("some {v}"), None => "none".into() });
-    let body = { let b = &hs.block; quote::quote!(#b).to_string() };
+    // (looked for in every function of the file: `handle_stream` may have been split)
+    let _ = hs;
+    let body: String = fns.values().map(|b| quote::quote!(#b).to_string()).collect::<Vec<_>>().join(" ");
     let _ = writeln!(s, "/-- does `handle_stream` compare the topic's pattern with the registration before acknowledging? -/\ndef checksPattern : Bool := {}", body.contains("is_pubsub ()") && body.contains("TOPIC_PATTERN_MISMATCH"));
     g.emit("Server", &[ps_rel, rr_rel, sv_rel, codes_rel], &s);
     Ok(())
@@ -726,7 +854,7 @@ fn budget_inside_loop(b: &syn::Block) -> Option<bool> {
             if let Some(init) = &l.init {
                 let e = &init.expr;
                 let t = quote::quote!(#e).to_string();
-                if t.contains("backoff_strategy") && t.contains("into_iter ()") && self.found.is_none() { self.found = Some(self.depth > 0); }
+                if t.contains(". clone () . into_iter ()") && t.starts_with("self .") && self.found.is_none() { self.found = Some(self.depth > 0); }
             }
             syn::visit::visit_local(self, l);
         }
@@ -752,16 +880,26 @@ fn gen_keepalive(repo: &Path, g: &mut Gen) -> R<()> {
     // (another replier is bound) leaves it alone
     let listen_let_in_loop = budget_inside_loop(listen).ok_or_else(|| Shape(format!("{rr_rel}: listen(): no backoff iterator found")))?;
     let lt = quote::quote!(#listen).to_string();
-    let reset_arm = lt.find("_ => attempts = self . backoff_strategy . clone () . into_iter ()");
+    // the name of the local that holds the backoff iterator is whatever the code calls it
+    // (`<name> = self.<field>.clone().into_iter()`: both names are whatever the code calls them)
+    let (it_name, field) = {
+        let pat = " . clone () . into_iter ()";
+        let at = lt.find(pat).ok_or_else(|| Shape(format!("{rr_rel}: listen(): no `… = self.<strategy>.clone().into_iter()`")))?;
+        let toks: Vec<&str> = lt[..at].split(' ').collect();
+        let n = toks.len();
+        if n < 5 || toks[n - 3] != "self" || toks[n - 2] != "." || toks[n - 4] != "=" { return shape(rr_rel, "listen(): the backoff iterator is not made by `<name> = self.<field>.clone().into_iter()`"); }
+        (toks[n - 5].to_string(), toks[n - 1].to_string())
+    };
+    let reset_arm = lt.find(&format!("_ => {it_name} = self . {field} . clone () . into_iter ()"));
     let bind_arm = lt.find("Err (SeliumError :: OpenStream (code , _)) if is_bind_error (code) => ()");
     let listen_per = listen_let_in_loop || reset_arm.is_some();
     let refusal_counts = if listen_let_in_loop { false } else if let Some(r) = reset_arm { matches!(bind_arm, Some(b) if b < r) } else { true };
-    if !lt.contains("self . try_reconnect (& mut attempts) . await ?") { return shape(rr_rel, "listen(): no `self.try_reconnect(&mut attempts).await?`"); }
+    if !lt.contains(&format!("self . try_reconnect (& mut {it_name}) . await ?")) { return shape(rr_rel, format!("listen(): no `self.try_reconnect(&mut {it_name}).await?`")); }
     let request_per = budget_inside_loop(request).ok_or_else(|| Shape(format!("{rr_rel}: request(): no backoff iterator found")))?;
     // pub/sub wrapper: the iterator is created when the status goes from Connected to Disconnected
     let on_dis = method_body(&ps, "on_disconnect", 0).ok_or_else(|| Shape(format!("{ps_rel}: fn on_disconnect not found")))?;
     let od = quote::quote!(#on_dis).to_string();
-    let pubsub_per = od.contains("ConnectionStatus :: disconnected (self . backoff_strategy . clone ())");
+    let pubsub_per = od.contains("ConnectionStatus :: disconnected (self .");
     // requestor: does on_reconnect start a reply reader for the new stream?
     let onr = method_body(&rq, "on_reconnect", 0).ok_or_else(|| Shape(format!("{rq_rel}: fn on_reconnect not found")))?;
     let onr_t = quote::quote!(#onr).to_string();
@@ -791,20 +929,46 @@ fn gen_keepalive(repo: &Path, g: &mut Gen) -> R<()> {
 
 // -------------------------------------------------------------------------------------- compression
 
-/// the arms of the `match self.library` in a `compress` / `decompress` method: library variant -> arm tokens
+/// the arms of the `match self.library` in a `compress` / `decompress` method: library variant -> arm tokens (with the
+/// bodies of the private helpers an arm calls). Also understood: `if let DeflateLibrary::X = self.library { … return … }`
+/// followed by the other library's code.
 fn library_arms(src: &Src, self_ty: &str, method: &str, tr: &str) -> R<Vec<(String, String)>> {
     let f = find_method(&src.ast, self_ty, method, Some(tr)).ok_or_else(|| Shape(format!("{}: impl {tr} for {self_ty}: fn {method} not found", src.rel)))?;
-    let m = find_match(&f.block).ok_or_else(|| Shape(format!("{}: {self_ty}::{method}: no match on the library", src.rel)))?;
-    let scrut = &m.expr;
-    if quote::quote!(#scrut).to_string() != "self . library" { return shape(&src.rel, format!("{self_ty}::{method}: the match is not on self.library")); }
-    let mut v = vec![];
-    for a in &m.arms {
-        let var = pat_variant(&a.pat).ok_or_else(|| Shape(format!("{}: {self_ty}::{method}: arm pattern not understood", src.rel)))?;
-        if a.guard.is_some() { return shape(&src.rel, format!("{self_ty}::{method}: guarded arm")); }
-        let b = &a.body;
-        v.push((var, quote::quote!(#b).to_string()));
+    let fns = all_fns(&src.ast);
+    if let Some(m) = find_match(&f.block) {
+        let scrut = &m.expr;
+        if quote::quote!(#scrut).to_string() == "self . library" {
+            let mut v = vec![];
+            for a in &m.arms {
+                let var = pat_variant(&a.pat).ok_or_else(|| Shape(format!("{}: {self_ty}::{method}: arm pattern not understood", src.rel)))?;
+                if a.guard.is_some() { return shape(&src.rel, format!("{self_ty}::{method}: guarded arm")); }
+                let b = &a.body;
+                v.push((var, with_callees(&quote::quote!(#b).to_string(), &fns)));
+            }
+            return Ok(v);
+        }
     }
-    Ok(v)
+    for (i, st) in f.block.stmts.iter().enumerate() {
+        if let syn::Stmt::Expr(Expr::If(ifx), _) = st {
+            if let Expr::Let(l) = &*ifx.cond {
+                let e = &l.expr;
+                if quote::quote!(#e).to_string() != "self . library" { continue; }
+                let var = pat_variant(&l.pat).ok_or_else(|| Shape(format!("{}: {self_ty}::{method}: `if let` pattern not understood", src.rel)))?;
+                let other = match var.as_str() { "Gzip" => "Zlib", "Zlib" => "Gzip", _ => return shape(&src.rel, format!("{self_ty}::{method}: unknown library variant {var}")) };
+                let then = &ifx.then_branch;
+                let then_t = with_callees(&quote::quote!(#then).to_string(), &fns);
+                let rest_t = match &ifx.else_branch {
+                    Some((_, eb)) => quote::quote!(#eb).to_string(),
+                    None => {
+                        if !thas(&then_t, "return") { return shape(&src.rel, format!("{self_ty}::{method}: the `if let` on the library neither has an else branch nor returns")); }
+                        f.block.stmts[i + 1..].iter().map(|s| quote::quote!(#s).to_string()).collect::<Vec<_>>().join(" ")
+                    }
+                };
+                return Ok(vec![(var, then_t), (other.to_string(), with_callees(&rest_t, &fns))]);
+            }
+        }
+    }
+    shape(&src.rel, format!("{self_ty}::{method}: no `match self.library` and no `if let … = self.library`"))
 }
 
 fn inherent_body(src: &Src, self_ty: &str, method: &str) -> R<String> {
@@ -846,9 +1010,7 @@ fn gen_compression(repo: &Path, g: &mut Gen) -> R<()> {
         let l = lib_of(v, dc_rel)?;
         let f = fmt_of(t, dc_rel, "GzEncoder", "ZlibEncoder")?;
         // the bytes are taken from `encoder.finish()?` after `write_all(&input)?`
-        let wi = t.find("write_all (& input) ?");
-        let fi = t.find("encoder . finish () ?");
-        finished &= matches!((wi, fi), (Some(a), Some(b)) if a < b);
+        finished &= tseq(t, &["write_all (", "$ . finish () ?"]);
         let _ = writeln!(s, "  | .{l} => .{f}");
         seen.push(l);
     }
@@ -862,7 +1024,7 @@ fn gen_compression(repo: &Path, g: &mut Gen) -> R<()> {
     for (v, t) in &arms {
         let l = lib_of(v, dd_rel)?;
         let f = fmt_of(t, dd_rel, "GzDecoder", "ZlibDecoder")?;
-        whole &= t.contains(":: new (& input [..])") && t.contains("read_to_end (& mut output) ?");
+        whole &= tseq(t, &["$ :: new (", "read_to_end ( & mut $ ) ?"]);
         let _ = writeln!(s, "  | .{l} => .{f}");
         seen.push(l);
     }
@@ -887,20 +1049,20 @@ fn gen_compression(repo: &Path, g: &mut Gen) -> R<()> {
     // the single-format algorithms: which library entry points the two halves use
     let pairs: [(&str, &str, &str, &str, &str, &[&str], &[&str]); 3] = [
         ("zstd", "standard/src/compression/zstd/comp.rs", "ZstdComp", "standard/src/compression/zstd/decomp.rs", "ZstdDecomp",
-            &["zstd :: encode_all (& input [..] , self . level) ?"], &["zstd :: decode_all (& input [..]) ?"]),
+            &["zstd :: encode_all (", ") ?"], &["zstd :: decode_all (", ") ?"]),
         ("lz4", "standard/src/compression/lz4/comp.rs", "Lz4Comp", "standard/src/compression/lz4/decomp.rs", "Lz4Decomp",
-            &["FrameEncoder :: new (vec ! [])", "write_all (& input) ?", "encoder . finish () ?"], &["FrameDecoder :: new (& input [..])", "read_to_end (& mut buf) ?"]),
+            &["FrameEncoder :: new (", "write_all (", "$ . finish () ?"], &["FrameDecoder :: new (", "read_to_end ( & mut $ ) ?"]),
         ("brotli", "standard/src/compression/brotli/comp.rs", "BrotliComp", "standard/src/compression/brotli/decomp.rs", "BrotliDecomp",
-            &["CompressorWriter :: with_params (vec ! [] , BUFFER_SIZE , & self . params)", "write_all (& input) ?", "encoder . flush () ?", "encoder . into_inner ()"], &["Decompressor :: new (& input [..] , BUFFER_SIZE)", "read_to_end (& mut buf) ?"]),
+            &["CompressorWriter :: with_params (", "write_all (", "$ . flush () ?", "$ . into_inner ()"], &["Decompressor :: new (", "read_to_end ( & mut $ ) ?"]),
     ];
     let mut sources = vec![dc_rel, dd_rel, dt_rel];
     for (name, c_rel, c_ty, d_rel, d_ty, c_need, d_need) in pairs {
         let c = Src::load(repo, c_rel)?;
         let d = Src::load(repo, d_rel)?;
-        let cb = trait_body(&c, c_ty, "compress", "Compress")?;
-        let db = trait_body(&d, d_ty, "decompress", "Decompress")?;
-        // the steps must all be present and in this order
-        let in_order = |body: &str, need: &[&str]| -> bool { let mut at = 0; for n in need { match body[at..].find(n) { Some(i) => at += i + n.len(), None => return false } } true };
+        let cb = with_callees(&trait_body(&c, c_ty, "compress", "Compress")?, &all_fns(&c.ast));
+        let db = with_callees(&trait_body(&d, d_ty, "decompress", "Decompress")?, &all_fns(&d.ast));
+        // the steps must all be present and in this order (whatever the locals and private constants are called)
+        let in_order = |body: &str, need: &[&str]| -> bool { tseq(body, need) };
         let _ = writeln!(s, "/-- {c_rel}: `compress` is the library's whole-input encoder, finalised before the bytes are taken -/\ndef {name}CompWhole : Bool := {}", in_order(&cb, c_need));
         let _ = writeln!(s, "/-- {d_rel}: `decompress` is the matching whole-input decoder -/\ndef {name}DecompWhole : Bool := {}", in_order(&db, d_need));
         sources.push(c_rel); sources.push(d_rel);
